@@ -26,6 +26,7 @@ META = {
 META["claim"] += " " + "Also: the dispatcher object's send path under short writes; receivers calling recv_frame() themselves; a slow transport (every write takes virtual time) with a socket timeout shorter than a frame and three senders; two- and three-preemption sampling at line granularity."
 META["claim"] += " " + 'Round 4: str payloads under short writes (framing judged); four short messages of alternating kind received by 2-3 threads with a preemption at every single line.'
 META["claim"] += " " + "Round 5: sender threads that threading.active_count() does not see (started behind the threading module's back); the transport offers sendmsg()."
+META["claim"] += " " + 'Rounds 6-7: aged connections, a fragmenting sender, a reader plus a ponger; a consumer that iterates over the connection next to recv()/next() callers; sender threads whose earlier send was refused by the transport.'
 
 
 # ---------------------------------------------------------------------------
